@@ -115,15 +115,7 @@ func (sf ScrubFields) clean(payload map[string]interface{}, path []string, field
 	case map[string]interface{}:
 		removeParent = sf.clean(v, path[1:], fields)
 	case []interface{}:
-		for _, x := range v {
-			if vv, ok := x.(map[string]interface{}); ok {
-				toCleanParent := sf.clean(vv, path[1:], fields)
-				removeParent = removeParent && toCleanParent
-			}
-		}
-		if len(v) == 0 {
-			removeParent = false
-		}
+		removeParent = sf.cleanList(v, path[1:], fields)
 	case []map[string]interface{}:
 		for _, vv := range v {
 			toCleanParent := sf.clean(vv, path[1:], fields)
@@ -142,4 +134,23 @@ func (sf ScrubFields) clean(payload map[string]interface{}, path []string, field
 	}
 
 	return len(payload) == 0
+}
+
+// cleanList cleans the objects of a list, lists of lists included
+func (sf ScrubFields) cleanList(list []interface{}, path []string, fields map[string][]string) bool {
+	removeParent := true
+	for _, x := range list {
+		switch vv := x.(type) {
+		case map[string]interface{}:
+			toCleanParent := sf.clean(vv, path, fields)
+			removeParent = removeParent && toCleanParent
+		case []interface{}:
+			toCleanParent := sf.cleanList(vv, path, fields)
+			removeParent = removeParent && toCleanParent
+		}
+	}
+	if len(list) == 0 {
+		removeParent = false
+	}
+	return removeParent
 }
